@@ -1,5 +1,5 @@
 (* C10 - Each request reaches exactly the authenticator method for its command. *)
-From Ctap Require Import Base Schema Wire Typed Procs Inst Tables ProcTables Finite FramingP FnShapes Shapes ObShapeDispatch Deps ObDeps ObShapeRequest ObShapeU2fParse.
+From Ctap Require Import Base Schema Wire Typed Procs Inst Tables ProcTables Finite FramingP FnShapes Shapes ObShapeDispatch Deps ObDeps ObShapeRequest ObShapeU2fParse ObShapeTablesOp.
 Local Open Scope string_scope.
 Local Open Scope Z_scope.
 
@@ -90,7 +90,7 @@ Theorem c10_modelled_functions_unchanged_dispatch : shapes_hold fn_shapes shapes
 Proof. exact generated_shapes_dispatch. Qed.
 
 (* the third-party crates the model represents by hand are pinned at the versions it was written against *)
-Theorem c10_modelled_dependencies_pinned : deps_hold lock_versions cargo_deps = true.
+Theorem c10_modelled_dependencies_pinned : deps_hold repo_lock_present lock_versions harness_lock_versions cargo_deps = true.
 Proof. exact generated_deps. Qed.
 
 (* further hand-modelled functions this property rests on *)
@@ -98,6 +98,10 @@ Theorem c10_modelled_functions_unchanged_request : shapes_hold fn_shapes shapes_
 Proof. exact generated_shapes_request. Qed.
 Theorem c10_modelled_functions_unchanged_u2f_parse : shapes_hold fn_shapes shapes_u2f_parse = true.
 Proof. exact generated_shapes_u2f_parse. Qed.
+
+(* lookup tables, accessors, builders and further generators this property rests on *)
+Theorem c10_modelled_functions_unchanged_tables_op : shapes_hold fn_shapes shapes_tables_op = true.
+Proof. exact generated_shapes_tables_op. Qed.
 
 Eval vm_compute in "ASSUMPTIONS c10_ctap2". Print Assumptions c10_ctap2.
 Eval vm_compute in "ASSUMPTIONS c10_ctap1". Print Assumptions c10_ctap1.
@@ -108,3 +112,4 @@ Eval vm_compute in "ASSUMPTIONS c10_modelled_functions_unchanged_dispatch". Prin
 Eval vm_compute in "ASSUMPTIONS c10_modelled_dependencies_pinned". Print Assumptions c10_modelled_dependencies_pinned.
 Eval vm_compute in "ASSUMPTIONS c10_modelled_functions_unchanged_request". Print Assumptions c10_modelled_functions_unchanged_request.
 Eval vm_compute in "ASSUMPTIONS c10_modelled_functions_unchanged_u2f_parse". Print Assumptions c10_modelled_functions_unchanged_u2f_parse.
+Eval vm_compute in "ASSUMPTIONS c10_modelled_functions_unchanged_tables_op". Print Assumptions c10_modelled_functions_unchanged_tables_op.
